@@ -617,3 +617,10 @@ impl TrigramIndex {
         grams
     }
 }
+// @item rust/core/src/store/trigram_index.rs :: impl TrigramIndex::{new,add,prepare,collect_grams} (lifted)
+pub fn cmp_counts(__a: &(usize, &usize), __b: &(usize, &usize)) -> (ret: Ordering)
+{
+    let (_, count1) = __a;
+    let (_, count2) = __b;
+    count2.cmp(count1)
+}
